@@ -115,7 +115,9 @@ def featureful(seed, k, rng):
     """A U_rand program with the features C10 quantifies over switched on; returns (program, tags)."""
     tags = set()
     cfg = dict(max_bits=rng.choice([60, 300, 1000]), p_empty_msg=0.15 if rng.random() < 0.4 else 0.0,
-               lib_as=("shared" if rng.random() < 0.3 else None), p_ext=0.0 if k % 2 == 0 else 0.3)
+               lib_as=("shared" if rng.random() < 0.3 else None), p_ext=0.0 if k % 2 == 0 else 0.3,
+               # enums without a zero member (the linter warns, the compiler accepts): defaults and factories
+               p_enum_nonzero_first=0.5 if k % 4 == 1 else 0.0)
     pr, _ = gen.rand_case(seed, 210000 + k, **cfg)
     p = copy.deepcopy(pr)
     p.pop("rtype", None)
@@ -125,6 +127,8 @@ def featureful(seed, k, rng):
         tags.add("empty-message")
     if cfg["lib_as"] and len(p["files"]) > 1:
         tags.add("import-as")
+    if cfg["p_enum_nonzero_first"]:
+        tags.add("enum-without-zero-member")
     r = rng.random
     if r() < 0.3:
         pi = [i for i, x in enumerate(main) if x["d"] == "proto"][0]
@@ -207,13 +211,31 @@ def featureful(seed, k, rng):
                 if d["d"] == "import" and d["file"] == lib:
                     d["file"] = newf
             tags.add("file-name-differs-from-proto-name")
+    if libs and "file-name-differs-from-proto-name" not in tags and r() < 0.2:
+        # the imported file says under which module / package name importers find it
+        lf = p["files"][libs[0]]
+        pi = [i for i, x in enumerate(lf) if x["d"] == "proto"][0]
+        mn, gp = "bppkg.%s_bp" % libs[0], "example.com/x/%s_bp" % libs[0]
+        lf.insert(pi + 1, {"d": "option", "name": "py.module_name", "v": {"e": "str", "src": mn, "val": mn}})
+        lf.insert(pi + 1, {"d": "option", "name": "go.package_path", "v": {"e": "str", "src": gp, "val": gp}})
+        p["_py_packages"] = {libs[0]: "bppkg"}
+        tags.add("module-name-options")
     if r() < 0.25:
         # a third file on top that imports the main file and the file the main file imports (a diamond)
+        old_main, old_libs = p["main"], [f for f in p["order"] if f != p["main"]]
         p = gen.wrap_diamond(p, rng)
         tags.add("diamond-import")
         if len(p["files"]) > 2:
             # app imports the library file without using any of its types (the type tree is not kept here)
             tags.add("import-used-only-for-constants-or-unused")
+            tl = [x for x in p["files"][old_libs[0]] if x["d"] in ("alias", "enum", "message")]
+            if tl and r() < 0.5:
+                # a type of the imported file named THROUGH the file in between: app -> main -> lib
+                x = rng.choice(tl)
+                appm = [d for d in p["files"][p["main"]] if d["d"] == "message"][0]
+                appm["body"].append({"d": "field", "name": "z", "num": 7,
+                                     "t": gen.tref([old_main, cfg["lib_as"] or old_libs[0], x["name"]])})
+                tags.add("transitive-dotted-reference")
     return p, tags
 
 
@@ -232,6 +254,8 @@ def sigs(tags, why):
         out.append("py-render-empty-enum")
     if "imported-nested-type" in tags and ("NameError" in w or "use-of-undeclared" in w):
         out.append("imported-nested-type-unqualified")
+    if "transitive-dotted-reference" in tags and ("NameError" in w or "use-of-undeclared" in w):
+        out.append("transitive-import-reference-unqualified")
     if "BpXXXProcessArray" in w or "BpXXXJsonFormatArray" in w:
         if "names-ending-in-digits" in tags:
             out.append("c-helper-name-collision-digits")
@@ -372,8 +396,14 @@ def main(tier, replay=None):
                 try:
                     import dataclasses
                     mods = {}
+                    pkgs = pr.get("_py_packages", {})
+                    for f, pkg in pkgs.items():
+                        # lay the module out where its py.module_name option says importers find it
+                        os.makedirs(os.path.join(outs["py"], pkg), exist_ok=True)
+                        open(os.path.join(outs["py"], pkg, "__init__.py"), "w").close()
+                        os.rename(os.path.join(outs["py"], f + "_bp.py"), os.path.join(outs["py"], pkg, f + "_bp.py"))
                     for f in pr["order"]:
-                        mods[f] = drive.load_py(outs["py"], f + "_bp")
+                        mods[f] = drive.load_py(outs["py"], (pkgs[f] + "." if f in pkgs else "") + f + "_bp")
                     ninst = 0
                     for f, mod in mods.items():
                         for name in dir(mod):
